@@ -495,7 +495,35 @@ def rule_reservoir_merkle(ctx: Ctx) -> None:
         ctx.ob("C20-8", "G2", fn, writes[0].ast if writes else None, ok, f"MerkleTree.{q}: after the data changes the root is rebuilt from all items in key order (the root hash always describes the current map)")
 
 
+def rule_tdigest_sorted_invariant(ctx: Ctx) -> None:
+    """C20-6: queries walk `self._centroids` assuming it is sorted by mean; only `_compress()` sorts.  Every method that grows or replaces the
+    centroid list therefore calls `_compress()` afterwards on every path to its exit (`_compress` itself, the constructor and `clear` aside)."""
+    prog = ctx.prog
+    td = prog.cls(TD, "TDigest")
+    n = 0
+    for m in td.methods.values():
+        if m.name in ("__init__", "_compress", "clear"):
+            continue
+        mf = ctx.flow(m)
+        grows = [nd for nd in mf.cfg.nodes if nd.kind in ("stmt",) and (
+            any(path_of(k.func) in ("self._centroids.append", "self._centroids.extend", "self._centroids.insert") for k in calls_in(nd.ast))
+            or (isinstance(nd.ast, (ast.Assign, ast.AugAssign)) and any(path_of(t_) == "self._centroids" or (isinstance(t_, ast.Subscript) and path_of(t_.value) == "self._centroids")
+                                                                     for t_ in (nd.ast.targets if isinstance(nd.ast, ast.Assign) else [nd.ast.target]))))]
+        for g in grows:
+            n += 1
+            bad = []
+            for p_ in enumerate_paths(mf, g, stop=lambda x: x is mf.cfg.exit):
+                if p_.end not in ("exit", "stop"):
+                    continue  # exceptional exits and loop back edges (the next iteration's paths are enumerated from the same node)
+                if not any(nd.kind == "stmt" and any(path_of(k.func) == "self._compress" for k in calls_in(nd.ast)) for nd in p_.nodes[1:]):
+                    bad.append(p_.describe()[:80])
+            ctx.ob("C20-6", "G2", m, g.ast, not bad, f"TDigest.{m.name}: after `{norm_stmt(g.ast)[:60]}` the list is re-sorted and re-compressed (`self._compress()`) before the method returns — "
+                   "quantile()/cdf() read the centroids in list order")
+    need(n >= 2, f"C20-6: expected >= 2 places that grow the centroid list (_flush, merge), found {n}")
+
+
 def run(ctx: Ctx) -> None:
+    ctx.guarded(rule_tdigest_sorted_invariant)
     ctx.guarded(rule_index_sketches)
     ctx.guarded(rule_topk_tdigest)
     ctx.guarded(rule_reservoir_merkle)
@@ -504,6 +532,7 @@ def run(ctx: Ctx) -> None:
 
 
 MUTANTS = [
+    ("tdigest-weighted-add-appends-unsorted", TD, "    def _flush(self) -> None:", "    def add_weighted(self, value: float, count: int) -> None:\n        self._flush()\n        self._centroids.append(_Centroid(mean=value, count=count))\n        self._total_count += count\n\n    def _flush(self) -> None:", "C20-6"),
     ("tdigest-compress-does-not-sort", TD, "        # Sort centroids by mean\n        self._centroids.sort(key=lambda c: c.mean)\n", "", "C20-6"),
     ("topk-merge-error-max", TOPK, "                self._counters[counter.item].error += counter.error\n            else:", "                self._counters[counter.item].error = max(self._counters[counter.item].error, counter.error)\n            else:", "C20-5"),
     ("cms-clear-aliases-rows", CMS, "        for row in range(self._depth):\n            for col in range(self._width):\n                self._counters[row][col] = 0\n        self._total_count = 0", "        self._counters = [[0] * self._width] * self._depth\n        self._total_count = 0", "C20-2"),
